@@ -565,7 +565,94 @@ def gen_bmp(r, maxops):
     return ops
 
 
-REFS = {"bmp": BmpRef, "vec": VecRef, "map": MapRef, "set": SetRef, "deq": DeqRef, "lst": LstRef, "str": StrRef}
+class OcRef:
+    def __init__(self):
+        self.slot = [False] * 4
+
+    def step(self, t):
+        k = t[1]
+        try:
+            a = [int(x) for x in t[2:]]
+        except ValueError:
+            return None
+        n = len(a)
+        if k == "new" and n == 0:
+            self.slot = [False] * 4
+        elif k == "get" and n == 1 and 0 <= a[0] < 4:
+            if self.slot[a[0]]:
+                return None          # the slot still holds an object (it would be lost)
+            self.slot[a[0]] = True
+        elif k == "put" and n == 2 and 0 <= a[0] < 4:
+            if not self.slot[a[0]]:
+                return None
+        elif k == "release" and n == 1 and 0 <= a[0] < 4:
+            if not self.slot[a[0]]:
+                return None          # releasing what one does not hold is outside the contract
+            self.slot[a[0]] = False
+        else:
+            return None
+        return k
+
+
+def gen_oc(r, maxops):
+    ref = OcRef(); ops = []
+    nops = r.range(2, maxops)
+    tries = 0
+    while len(ops) < nops and tries < 5 * nops:
+        tries += 1
+        sl = r.below(4)
+        k = r.weighted([("get", 8), ("put", 6), ("release", 7), ("new", 1)])
+        if k == "new":
+            line = "oc new"
+        elif k == "put":
+            line = "oc put %d %d" % (sl, r.range(-9, 99))
+        else:
+            line = "oc %s %d" % (k, sl)
+        _emit(ref, ops, line)
+    return ops
+
+
+class PoolRef:
+    def step(self, t):
+        k = t[1]
+        a = t[2:]
+        if not a or a[0] not in ("0", "1"):
+            return None
+        if k == "new" and len(a) == 2 and a[1].isdigit() and 1 <= int(a[1]) <= 200:
+            return k
+        if k == "clear" and len(a) == 1:
+            return k
+        if k == "get" and len(a) == 2 and parse_units(a[1]) is not None:
+            return k
+        return None
+
+
+def gen_pool(r, maxops):
+    ref = PoolRef(); ops = []
+    nops = r.range(2, maxops)
+    if r.chance(2, 3):
+        _emit(ref, ops, "pool new 0 %d" % r.choice([1, 2, 3, 7, 11, 101]))
+    alpha = r.choice([2, 3, 9])
+    seen = []
+    while len(ops) < nops:
+        i = 0 if r.chance(4, 5) else 1
+        k = r.weighted([("get", 20), ("clear", 1), ("new", 1)])
+        if k == "get":
+            if seen and r.chance(1, 3):
+                u = r.choice(seen)
+            else:
+                u = ".".join(str(r.range(1, alpha)) for _ in range(r.weighted([(0, 1), (1, 3), (2, 4), (3, 3), (r.range(4, 12), 1)]))) or "-"
+                seen.append(u)
+            line = "pool get %d %s" % (i, u)
+        elif k == "clear":
+            line = "pool clear %d" % i
+        else:
+            line = "pool new %d %d" % (i, r.choice([1, 3, 5, 101]))
+        _emit(ref, ops, line)
+    return ops
+
+
+REFS = {"oc": OcRef, "pool": PoolRef, "bmp": BmpRef, "vec": VecRef, "map": MapRef, "set": SetRef, "deq": DeqRef, "lst": LstRef, "str": StrRef}
 
 
 def tags(kind, ops):
